@@ -65,6 +65,7 @@ func runC29(c *Ctx) {
 	r.Rule("C29.R2", "writeRTP writes through its packet only the scalar header fields SSRC and PayloadType, taken from ssrc/payloadType of the binding being visited, and the PaddingSize mirror; no element write through a slice of the packet; the packet is handed only to writeStream.WriteRTP of that same binding, after the rewrites", 7)
 	r.Rule("C29.R3", "the loop over s.bindings lies on every path of writeRTP, performs exactly one writeStream.WriteRTP on every path through its body and is never left early (no break/return/panic/goto out of the body; an error of one writer does not stop the fan-out)", 3)
 	r.Rule("C29.R4", "every access to TrackLocalStaticRTP.bindings outside the constructor holds that track's mu (writes hold it exclusively); the fan-out call runs under the lock", 6)
+	r.Rule("C29.R6", "Unbind removes exactly the binding whose id equals the unbound context's ID(): swap-remove moves the last binding into the matching slot before truncating, or shift-remove cuts at the matching index", 1)
 	r.Rule("C29.R5", "a packet is put back into rtpPacketPool only after being overwritten with the zero rtp.Packet, and a function that takes a packet from the pool releases it by defer or after its last use", 3)
 	r.NotCovered = append(r.NotCovered, "what the downstream TrackLocalWriter does with the header pointer and payload slice", "TrackLocalStaticSample's packetizer path beyond its calls to WriteRTP")
 	r.Trusted = append(r.Trusted, "go/types object resolution; go/cfg", "sync.RWMutex: RLock excludes Lock")
@@ -78,6 +79,7 @@ func runC29(c *Ctx) {
 	c29R4(c, a)
 	c29R5(c, a)
 	g7DebugDump(c)
+	c29Unbind(c, "C29.R6")
 }
 
 // c29Parents maps every node below root to its parent.
